@@ -267,22 +267,22 @@ def parts(tier):
         ]
     return [
         CH("registry_merge_of_simplified_fields", "vflib.props.c08:scen_registry_merge", {"atoms": ["int", "float", "lit", "lit2", "null", "absent", "intstr"]},
-           shards=16, timeout=250, path_timeout=30),
-        CH("two_rounds_on_one_registry", "vflib.props.c08:scen_two_rounds", {"keys": 5}, shards=16, timeout=250, path_timeout=30),
+           shards=16, timeout=150, path_timeout=30),
+        CH("two_rounds_on_one_registry", "vflib.props.c08:scen_two_rounds", {"keys": 5}, shards=16, timeout=150, path_timeout=30),
         CH("registry_merge_literal_overflow", "vflib.props.c08:scen_registry_merge", {"atoms": ["lits_a", "lits_b", "intstr", "lit", "null", "absent", "float"]},
-           shards=16, timeout=250, path_timeout=30),
-        CH("late_registration", "vflib.props.c08:scen_late_registration", {}, shards=16, timeout=250, path_timeout=30),
-        CH("universe46", "vflib.props.c08:scen_universe", {"universe": "full", "max": 3}, shards=16, timeout=250, path_timeout=30),
+           shards=16, timeout=150, path_timeout=30),
+        CH("late_registration", "vflib.props.c08:scen_late_registration", {}, shards=16, timeout=150, path_timeout=30),
+        CH("universe46", "vflib.props.c08:scen_universe", {"universe": "full", "max": 3}, shards=16, timeout=150, path_timeout=30),
         CH("inputs", "vflib.props.c08:scen_inputs", {"kinds": "KINDS_FULL", "samples": 2, "keys": ["a"], "symbolic_leaves": False,
-                                                     "merge": ["default", "p50n2"], "dkf": True}, shards=16, timeout=250, path_timeout=30),
+                                                     "merge": ["default", "p50n2"], "dkf": True}, shards=16, timeout=150, path_timeout=30),
         CH("inputs_grammar_depth1_pairs", "vflib.props.c08:scen_inputs", {"kinds": "GRAMMAR1", "samples": 2, "keys": ["a"], "symbolic_leaves": False},
-           shards=16, timeout=250, path_timeout=30),
+           shards=16, timeout=150, path_timeout=30),
         CH("inputs_grammar_depth2_pairs", "vflib.props.c08:scen_inputs", {"kinds": "GRAMMAR2", "samples": 2, "keys": ["a"], "symbolic_leaves": False},
-           shards=16, timeout=250, path_timeout=30),
+           shards=16, timeout=150, path_timeout=30),
         CH("inputs3", "vflib.props.c08:scen_inputs", {"kinds": "KINDS_SMALL", "samples": 3, "keys": ["a"], "symbolic_leaves": False},
-           shards=16, timeout=250, path_timeout=30),
+           shards=16, timeout=150, path_timeout=30),
         CH("inputs_nested", "vflib.props.c08:scen_inputs", {"kinds": "KINDS_NEST", "samples": 2, "keys": ["a", "b"], "symbolic_leaves": False,
-                                                            "merge": ["default", "p50n2"]}, shards=16, timeout=250, path_timeout=30),
+                                                            "merge": ["default", "p50n2"]}, shards=16, timeout=150, path_timeout=30),
     ]
 
 
